@@ -142,6 +142,26 @@ def xlsOpen (arms : Arms) (file : Bytes) : Outcome :=
   | .panic _ => .panic
   | .outOfFuel => .fuel
 
+/-- `Xls::new_with_options(reader, XlsOptions { force_codepage, header_row })`. `header_row` is only stored (it is read
+    by `worksheet_range`). `force_codepage = Some(cp)` replaces the default 1200 in
+    `XlsEncoding::from_codepage(codepage)?`, which `parse_workbook` evaluates after the workbook stream is loaded and
+    BEFORE the record loop: an id the `codepage` crate does not know (`cpOk = false`) fails there, for every
+    workbook, encrypted or not; with a known id (`cpOk = true`; always the case without the option) the forced
+    code page only changes how the other arms decode text, which is the `arms` parameter. -/
+def xlsOpenWith (cpOk : Bool) (arms : Arms) (file : Bytes) : Outcome :=
+  match Cfb.new file file.length with
+  | .ok (c, rd) =>
+    if Cfb.hasDirectory c vbaName then .err "unmodelled:vba"
+    else
+      match workbookStream c rd with
+      | .ok s => if cpOk then xlsGlobalsStream arms (s.length + 1) s else .err "cfb:codepage"
+      | .err e => .err ("cfb:" ++ e)
+      | .panic _ => .panic
+      | .outOfFuel => .fuel
+  | .err e => .err ("cfb:" ++ e)
+  | .panic _ => .panic
+  | .outOfFuel => .fuel
+
 /-! ## ods: `manifest:encryption-data` in `META-INF/manifest.xml` -/
 
 /-- the quick-xml events the loops distinguish (`expand_empty_elements = true`: there is no `Empty` event);
